@@ -109,7 +109,13 @@ impl Filter for BasicFilter {
                 .lossy_into();
 
             // get relative frequency difference
-            let mut freq_diff = interval_local / interval_master;
+            // Two measurements with the same master time (e.g. a repeated event time)
+            // carry no frequency information; 0 / 0 would program NaN into the clock.
+            let mut freq_diff = if interval_master == 0.0 {
+                1.0
+            } else {
+                interval_local / interval_master
+            };
             if (freq_diff - 1.0).abs() > self.freq_confidence {
                 freq_diff = freq_diff.clamp(1.0 - self.freq_confidence, 1.0 + self.freq_confidence);
                 self.freq_confidence *= 2.0;
